@@ -486,7 +486,12 @@ func (c Cell) ContainsPoint(p Point) bool {
 	// is always true. To do this, we need to account for the error when
 	// converting from (u,v) coordinates to (s,t) coordinates. In the
 	// normal case the total error is at most dblEpsilon.
-	return c.uv.ExpandedByMargin(dblEpsilon).ContainsPoint(uv)
+	//
+	// The worst case is larger: for u (or v) in (-1/2, -1/3) the roundings of
+	// uvToST and of (1-s)^2 in stToUV add up to 1.25 * dblEpsilon, which an
+	// exhaustive scan of the leaf-cell boundaries of a face axis attains for
+	// level 29 and 30 cells. A margin of 2 * dblEpsilon covers it.
+	return c.uv.ExpandedByMargin(2 * dblEpsilon).ContainsPoint(uv)
 }
 
 // Encode encodes the Cell.
